@@ -131,10 +131,10 @@ while len(cases) < ncase:
         if k == 0:
             tree = treegen.gen_tree(rng.randint(0, 4))
             text = treegen.render(tree)
-            nm = rng.choice([None, None, None, "parsed sample"])
+            nm = rng.choice([None, None, None, "parsed sample", "Rose's metal"])
             add_case(formula(text, name=nm), "parsed", given_name=nm, how="formula(%r, name=%r)" % (text, nm))
         elif k == 1:
-            add_case(formula(wide_nested(rng.randint(0, 3)), name=rng.choice([None, None, None, "sample"])), "nested")
+            add_case(formula(wide_nested(rng.randint(0, 3)), name=rng.choice([None, None, None, "sample", "Wood's metal", "a\\b", 'say "x"'])), "nested")
         elif k == 2:
             f = formula(wide_nested(1))
             g = formula(wide_nested(rng.randint(0, 2)))
@@ -154,7 +154,7 @@ while len(cases) < ncase:
             fn = mix_by_weight if rng.random() < 0.5 else mix_by_volume
             kw = {}
             if rng.random() < 0.4:
-                kw["name"] = rng.choice(["alloy", "sample 7", "mix"])
+                kw["name"] = rng.choice(["alloy", "sample 7", "mix", "Wood's metal"])
             if rng.random() < 0.3:
                 kw[rng.choice(["density", "natural_density"])] = round(rng.uniform(0.5, 12), 3)
             add_case(fn(*parts, **kw), "mixture", given_name=kw.get("name"),
